@@ -102,3 +102,10 @@ func VerifH_C04_SequentialRecycling() {
 }
 
 var _ = net.IPv4len
+
+// VerifH_C03_UDPListener: the UDP listener end to end under the one-response property: two datagrams from two clients
+// handled concurrently while the receive buffer is overwritten by the next packet as soon as the read loop moves on
+// (whatever still has to look at the datagram's octets must have taken its own copy — or have decoded it — by then):
+// exactly one response datagram per query, to the right client, with that query's ID, question and answer
+// (scenario of C04_UDPConcurrent).
+func VerifH_C03_UDPListener() { VerifH_C04_UDPConcurrent() }
